@@ -56,6 +56,10 @@ EXPLANATION += (
     'lists are filled in lock-step (R-ALIGN).'
 )
 
+EXPLANATION += (
+    " Round 5: the pre-flight reconciliation of taxonomy and marker cache can fail only through the place where a parent of the run's tree is found without markers (R-MUST/rejects-only-missing-parent)."
+)
+
 RULE_TEXT = (
     "one obligation per value-identity / provenance / dominance relation "
     "named above; non-trivial when both ends of the relation exist")
@@ -77,6 +81,7 @@ def check(ctx):
     check_tree_versions(ctx)
     check_backfill(ctx)
     check_level_keys(ctx)
+    check_reconcile_one_sided(ctx)
     from .C10 import check_node_identity
     check_node_identity(ctx, ('type_assignment.election', 'taxonomy.taxonomy_tree'), floor=2)
 
@@ -1035,3 +1040,138 @@ def _none_guarded(cfg, node, var):
                                     or cfg.dominates(tt, node.id)):
                     return True
     return False
+
+
+def check_reconcile_one_sided(ctx):
+    """the pre-flight comparison of taxonomy and marker cache may reject a
+    run only for a parent of the run's tree that has no markers.  The
+    cache is allowed to hold more than the tree asks for: a run with a
+    level dropped or the tree flattened uses the marker table of the full
+    taxonomy.  Every failing verdict `(False, ...)` must therefore pass
+    through the place where a parent of the tree was found missing from
+    the cache; a failing verdict reachable without it rejects taxonomies
+    the property says are mapped."""
+    db = ctx.db
+    fi = db.fn('type_assignment.utils:reconcile_taxonomy_and_markers')
+    ctx.touch(fi)
+    cfg = cfg_of(fi)
+    rd = rd_of(fi)
+    ex = Expander(fi)
+    rule = 'R-MUST/rejects-only-missing-parent'
+    recorders = set()
+    for loop in ast.walk(fi.node):
+        if not isinstance(loop, ast.For):
+            continue
+        hdr = [x for x in cfg.nodes_of(loop) if x.kind == 'for'
+               and x.id in rd.live]
+        if not hdr:
+            continue
+        t = ex.expand(loop.iter, hdr[0].id)
+        from ..core.defuse import term_contains
+        if not term_contains(t, lambda x: len(x) == 3 and x[0] == 'attr'
+                             and x[2] == 'all_parents'):
+            continue
+        for iff in ast.walk(loop):
+            if not isinstance(iff, ast.If):
+                continue
+            tst, arm = iff.test, iff.body
+            if isinstance(tst, ast.UnaryOp) and isinstance(
+                    tst.op, ast.Not):
+                tst, arm = tst.operand, iff.orelse
+                if isinstance(tst, ast.Compare) and isinstance(
+                        tst.ops[0], ast.In):
+                    pass
+                else:
+                    continue
+            elif isinstance(tst, ast.Compare) and isinstance(
+                    tst.ops[0], ast.NotIn):
+                pass
+            elif isinstance(tst, ast.Compare) and isinstance(
+                    tst.ops[0], ast.In):
+                arm = iff.orelse
+            else:
+                continue
+            for st in arm:
+                for sub in ast.walk(st):
+                    if isinstance(sub, ast.stmt):
+                        for x in cfg.nodes_of(sub):
+                            recorders.add(x.id)
+    if not recorders:
+        raise AnalysisError('the place where a parent of the tree is '
+                            'found missing from the marker cache was not '
+                            'recognised in reconcile_taxonomy_and_markers')
+    # collections that are empty unless a missing parent was recorded:
+    # created empty, filled only at the recording place.  On a path that
+    # avoids that place their emptiness tests have a known outcome.
+    def _empty_literal(v):
+        return (isinstance(v, (ast.List, ast.Set, ast.Dict, ast.Tuple))
+                and not getattr(v, 'elts', getattr(v, 'keys', None))) or (
+            isinstance(v, ast.Call) and isinstance(v.func, ast.Name)
+            and v.func.id in ('list', 'set', 'dict') and not v.args)
+    only_there = set()
+    for name in {d.name for d in rd.defs}:
+        defs = [d for d in rd.defs if d.name == name]
+        muts = [m for m in rd.mutations(name) if m[0] in rd.live]
+        if defs and muts and all(
+                d.kind == 'assign' and not d.path and _empty_literal(
+                    d.value) for d in defs) and all(
+                        m[0] in recorders for m in muts):
+            only_there.add(name)
+
+    def _known_empty(test):
+        """True / False: outcome of the test when the collections are
+        empty; None: not such a test"""
+        t, neg = test, False
+        if isinstance(t, ast.UnaryOp) and isinstance(t.op, ast.Not):
+            t, neg = t.operand, True
+        val = None
+        if isinstance(t, ast.Name) and t.id in only_there:
+            val = False
+        elif isinstance(t, ast.Compare) and len(t.ops) == 1 \
+                and isinstance(t.left, ast.Call) and isinstance(
+                    t.left.func, ast.Name) and t.left.func.id == 'len' \
+                and t.left.args and isinstance(t.left.args[0], ast.Name) \
+                and t.left.args[0].id in only_there and isinstance(
+                    t.comparators[0], ast.Constant) \
+                and t.comparators[0].value == 0:
+            op = t.ops[0]
+            if isinstance(op, ast.Eq):
+                val = True
+            elif isinstance(op, (ast.Gt, ast.NotEq)):
+                val = False
+        if val is None:
+            return None
+        return (not val) if neg else val
+
+    def edge_ok(a, b, lab):
+        if lab == 'exc':
+            return False
+        na = cfg.nodes[a]
+        if na.kind == 'if' and lab in ('true', 'false'):
+            v = _known_empty(na.ast.test)
+            if v is not None and (lab == 'true') != v:
+                return False
+        return True
+    k = 0
+    for r in cfg.nodes:
+        if r.kind != 'return' or r.id not in rd.live:
+            continue
+        v = r.ast.value
+        first = v.elts[0] if isinstance(v, ast.Tuple) and v.elts else v
+        if not (isinstance(first, ast.Constant) and first.value is False):
+            continue
+        p = cfg.path(cfg.entry, {r.id}, avoid=lambda x: x.id in recorders,
+                     edge_ok=edge_ok)
+        ok = p is None
+        ctx.ob(rule, f'{fi.qual}:return#{k}', fi.loc(r.ast), ok,
+               'the run is rejected only after a parent of the tree was '
+               'found without markers' if ok else
+               f'`{unparse(r.ast)[:60]}` rejects the run although no '
+               'parent of the tree lacks markers: a marker table that '
+               'holds more than the run\'s tree (level dropped, tree '
+               'flattened) is refused',
+               witness=cfg.fmt_path(p) if p else None)
+        k += 1
+    if k == 0:
+        raise AnalysisError('no failing verdict found in '
+                            'reconcile_taxonomy_and_markers')
